@@ -3,6 +3,7 @@ module verif/harness
 go 1.21
 
 require (
+	cosmossdk.io/math v1.3.0
 	cosmossdk.io/store v1.1.1
 	github.com/bianjieai/tibc-go v0.0.0
 	github.com/cometbft/cometbft v0.38.12
@@ -25,7 +26,6 @@ require (
 	cosmossdk.io/depinject v1.0.0 // indirect
 	cosmossdk.io/errors v1.0.1 // indirect
 	cosmossdk.io/log v1.4.1 // indirect
-	cosmossdk.io/math v1.3.0 // indirect
 	cosmossdk.io/x/evidence v0.1.1 // indirect
 	cosmossdk.io/x/feegrant v0.1.1 // indirect
 	cosmossdk.io/x/nft v0.1.1 // indirect
